@@ -5,7 +5,7 @@ CONSTANTS
   NTs = {1, 2, 3}
   Lmtps = {TRUE, FALSE}
   Holds = {TRUE, FALSE}
-  Fails = {"temp", "perm"}
+  Fails = {"temp", "perm", "unspec"}
   MaxFaults = 1000
   MaxCmds = 1000
   Allowed = {"*"}
